@@ -1,18 +1,21 @@
 #!/bin/bash
-# Must-fail corpus: applies every seeded change kept under /verif/seeded/<id>-N to /repo (one at a
-# time, undone straight afterwards), runs the quick check of its property and requires exit 1.
-# Also requires exit 0 on the unchanged tree for those properties. Run after every engine change.
+# Must-fail corpus: for every seeded change kept under /verif/seeded/<id>-N, a scratch worktree of
+# /repo's HEAD (outside /repo and /verif, removed afterwards) gets the change applied and the quick
+# check of its property is run against that copy (govc check -repo <copy>, output under a scratch
+# directory); exit 1 is required. Four at a time. /repo itself is not touched.
 # usage: tools/selftest.sh [seed-name ...]
 cd /verif
-if [ -n "$(git -C /repo status --short)" ]; then echo "refusing: /repo has uncommitted changes"; exit 2; fi
 seeds="$@"; [ -z "$seeds" ] && seeds=$(ls seeded)
-mkdir -p out/selftest; fail=0
-for s in $seeds; do
-  p=${s%%-*}
-  git -C /repo apply /verif/seeded/$s/patch.diff || { echo "$s: patch does not apply"; fail=1; continue; }
-  ./check $p quick > out/selftest/$s.txt 2>&1; rc=$?
-  git -C /repo checkout -- .
-  git -C /verif checkout -- evidence/$p.json 2>/dev/null; rm -rf replays/$p
-  if [ $rc -eq 1 ]; then echo "$s: reported ($(grep -c '^VIOLATION' out/selftest/$s.txt) violations; first: $(grep -m1 FAILED-OBLIGATION out/selftest/$s.txt | cut -c19-110))"; else echo "$s: NOT REPORTED (exit $rc)"; fail=1; fi
-done
-exit $fail
+mkdir -p out/selftest
+one() {
+  s=$1; p=${s%%-*}; wt=/tmp/st_$s
+  git -C /repo worktree remove --force $wt 2>/dev/null; rm -rf $wt
+  git -C /repo worktree add -q --detach $wt HEAD || { echo "$s: cannot create worktree"; return; }
+  if ! git -C $wt apply /verif/seeded/$s/patch.diff; then echo "$s: patch does not apply"; git -C /repo worktree remove --force $wt; return; fi
+  GOVC_SCRATCH=$wt/.govc /verif/bin/govc check -prop $p -tier quick -repo $wt > out/selftest/$s.txt 2>&1; rc=$?
+  git -C /repo worktree remove --force $wt 2>/dev/null; rm -rf $wt
+  if [ $rc -eq 1 ]; then echo "$s: reported ($(grep -c '^VIOLATION' out/selftest/$s.txt) violations; first: $(grep -m1 FAILED-OBLIGATION out/selftest/$s.txt | cut -c19-120))"; else echo "$s: NOT REPORTED (exit $rc)"; fi
+}
+export -f one
+printf '%s\n' $seeds | xargs -P 4 -I{} bash -c 'one {}'
+git -C /repo worktree prune
